@@ -51,6 +51,8 @@ MANIFEST = {
     "technique": "Lean 4 proofs about the decision model and the history state machine + end-to-end scenario correspondence with the rebuilt squid",
 }
 
+KNOWN_MUST_MATCH_MODEL = True   # the model reproduces the three listed defects; a known-region input whose observation differs from the model is reported
+
 MONTHS = ["Jan", "Feb", "Mar", "Apr", "May", "Jun", "Jul", "Aug", "Sep", "Oct", "Nov", "Dec"]
 DAYS = ["Mon", "Tue", "Wed", "Thu", "Fri", "Sat", "Sun"]
 LONGDAYS = ["Monday", "Tuesday", "Wednesday", "Thursday", "Friday", "Saturday", "Sunday"]
